@@ -198,8 +198,11 @@ def judge(scn, obs, world):
 
 
 def execute(scn, debug=False):
-    r = qc.execute(scn, judge, debug=debug)
-    return r
+    return qc.execute(scn, judge, debug=debug,
+                      nontrivial_fn=lambda scn, obs, an: bool(obs['flushes'])
+                      or any(len(a['attempts']) >= 2 or
+                             a['m'].get('how') in ('preload', 'announce')
+                             for a in an.values()))
 
 
 shrink_candidates = qc.shrink_candidates
